@@ -114,10 +114,19 @@ func buildPartDisk(c *partioCase, extra uint64) (*memdev.Dev, *disk.Disk, int64,
 	var tbl partition.Table
 	if c.Table == "gpt" {
 		t := &gpt.Table{LogicalSectorSize: c.LSS, PhysicalSectorSize: c.PSS, ProtectiveMBR: true, GUID: fixedDiskGUID}
-		if c.Via == "unordered" {
+		if c.Via == "gaps" {
+			// used slots 1, 3, 4 (slot 2 empty); the partition under test is number 3, read back from the disk
+			t.Partitions = append(t.Partitions,
+				&gpt.Partition{Index: 1, Start: c.Start + c.Sectors + 3, End: c.Start + c.Sectors + 3 + c.Sectors - 1, Type: gpt.LinuxFilesystem, Name: "p1", GUID: partGUID(2)},
+				&gpt.Partition{Index: 4, Start: c.Start + 2*(c.Sectors+3), End: c.Start + 2*(c.Sectors+3) + c.Sectors - 1, Type: gpt.LinuxFilesystem, Name: "p4", GUID: partGUID(4)},
+				&gpt.Partition{Index: 3, Start: c.Start, End: c.Start + c.Sectors - 1, Type: gpt.LinuxFilesystem, Name: "p3", GUID: partGUID(1)})
+			tbl = t
+		} else if c.Via == "unordered" {
 			t.Partitions = append(t.Partitions, &gpt.Partition{Index: 2, Start: c.Start + c.Sectors + 3, End: c.Start + c.Sectors + 3 + c.Sectors - 1, Type: gpt.LinuxFilesystem, Name: "p2", GUID: partGUID(2)})
 		}
-		t.Partitions = append(t.Partitions, &gpt.Partition{Index: 1, Start: c.Start, End: c.Start + c.Sectors - 1, Type: gpt.LinuxFilesystem, Name: "p1", GUID: partGUID(1)})
+		if c.Via != "gaps" {
+			t.Partitions = append(t.Partitions, &gpt.Partition{Index: 1, Start: c.Start, End: c.Start + c.Sectors - 1, Type: gpt.LinuxFilesystem, Name: "p1", GUID: partGUID(1)})
+		}
 		if c.Op == "copy" {
 			ts := c.Sectors
 			switch c.CopyTo {
@@ -153,7 +162,7 @@ func buildPartDisk(c *partioCase, extra uint64) (*memdev.Dev, *disk.Disk, int64,
 		}
 		tbl = t
 	}
-	if c.Via != "" {
+	if c.Via != "" && c.Via != "gaps" {
 		dk := &disk.Disk{Backend: be(d, false), Size: size, LogicalBlocksize: lss, PhysicalBlocksize: int64(c.PSS), DefaultBlocks: true}
 		if err := dk.Partition(tbl); err != nil {
 			return nil, nil, 0, fmt.Errorf("table refused: %w", err)
@@ -174,6 +183,11 @@ func runPartioCase(c *partioCase) (sig, msg, outcome string) {
 	extra := uint64(0)
 	if c.Op == "copy" || c.Via == "unordered" {
 		extra = c.Sectors + 8
+	}
+	target := 1
+	if c.Via == "gaps" {
+		extra = 2*c.Sectors + 16
+		target = 3
 	}
 	d, dk, _, err := buildPartDisk(c, extra)
 	if err != nil {
@@ -257,7 +271,7 @@ func runPartioCase(c *partioCase) (sig, msg, outcome string) {
 	rd := &patReader{n: n, total: psize + 1, chunk: c.Chunk}
 	var written int64
 	var werr error
-	if pm := guard(func() { written, werr = dk.WritePartitionContents(1, rd) }); pm != "" {
+	if pm := guard(func() { written, werr = dk.WritePartitionContents(target, rd) }); pm != "" {
 		return "write|" + pm, pm, "panic"
 	}
 	if len(d.Outside) > 0 {
@@ -302,7 +316,7 @@ func runPartioCase(c *partioCase) (sig, msg, outcome string) {
 	cw := &countWriter{dev: d, base: pstart, limit: psize}
 	var got int64
 	var rerr error
-	if pm := guard(func() { got, rerr = dk.ReadPartitionContents(1, cw) }); pm != "" {
+	if pm := guard(func() { got, rerr = dk.ReadPartitionContents(target, cw) }); pm != "" {
 		return "read|" + pm, pm, "panic"
 	}
 	if rerr != nil {
@@ -381,8 +395,8 @@ func enumC13(quick bool) []partioCase {
 					}
 					if !huge {
 						// the Disk keeps the caller's own table object (Disk.Partition), also with the slice out of index order
-						for _, via := range []string{"inmem", "unordered"} {
-							if via == "unordered" && tb == "mbr" {
+						for _, via := range []string{"inmem", "unordered", "gaps"} {
+							if via != "inmem" && tb == "mbr" {
 								continue // MBR slots are positional
 							}
 							for _, lm := range []string{"size", "size+1"} {
